@@ -15,7 +15,7 @@ BOUNDS = {"quick": "per table: every sequence of <=2 operations over {store A, s
           "thorough": "sequences of <=4 operations (symbolic: <=3)"}
 OUTSIDE = ["sqlite's own journal atomicity (trusted: a transaction that was not committed is rolled back when the file is reopened)", "power-loss below the OS (fsync ordering)",
            "record contents: blobs are opaque tokens in the crash harness (sqlite only stores and compares them); real python-axolotl records are used in the durability harness"]
-ASSUMPTIONS = ["a process death = the connection is abandoned at a statement/commit boundary without commit",
+ASSUMPTIONS = ["a process death = the connection is abandoned at a statement/commit boundary without commit; either at once (killed) or after the stack has unwound once (interrupted: finally blocks of the store code run)",
                "symbolic cases: sqlite3 behaves like sx/symsql.py on the statements issued (differentially tested each run; every model replayed on real sqlite3); python-axolotl record classes are transparent wrappers of their bytes"]
 EXPLANATION = "solver-driven enumeration of operation sequence x crash boundary on the real stores over real sqlite"
 
@@ -26,17 +26,27 @@ class Crash(BaseException):
     pass
 
 
+class Interrupted(BaseException):
+    """the process is told to stop (SIGTERM handled by sys.exit, Ctrl-C): the stack unwinds -- `finally` blocks and context managers of the
+    code under test DO run -- and then the process ends without any further store call"""
+
+
 class Boundary(object):
     def __init__(self):
         self.armed = False
         self.count = 0
         self.crash_at = None
+        self.unwind = False          # True: death by interruption (stack unwinds once), False: killed outright
         self.log = []
 
     def hit(self, what):
         if not self.armed:
             return
         if self.crash_at is not None and self.count == self.crash_at:
+            if self.unwind:
+                self.log.append("INTERRUPTED before %s" % what)
+                self.crash_at = None            # what the unwinding code still does to the store is executed
+                raise Interrupted()
             self.log.append("CRASH before %s" % what)
             raise Crash()
         self.log.append(what)
@@ -229,11 +239,12 @@ def h_crash(ctx, table, n_ops):
         post = dict(model)
         ops[seq[-1]][1](post)
         crash_at = ctx.choice("crash_at", ["none", 0, 1, 2, 3, 4])
+        b.unwind = ctx.choice("death", ["killed", "interrupted"]) == "interrupted"
         b.armed, b.crash_at, b.count = True, (None if crash_at == "none" else crash_at), 0
         crashed = False
         try:
             ops[seq[-1]][0](store)
-        except Crash:
+        except (Crash, Interrupted):
             crashed = True
         b.armed = False
         ctx.note("boundaries %s" % b.log)
@@ -543,11 +554,12 @@ def h_sym(ctx, table, n_ops):
         pre, post = ghost.copy(), ghost.copy()
         upd(post)
         crash_at = ctx.choice("crash_at", ["none", 0, 1, 2, 3])
+        b.unwind = ctx.choice("death", ["killed", "interrupted"]) == "interrupted"
         b.armed, b.crash_at, b.count = True, (None if crash_at == "none" else crash_at), 0
         crashed = False
         try:
             run()
-        except Crash:
+        except (Crash, Interrupted):
             crashed = True
         b.armed = False
         env.die()
